@@ -45,7 +45,7 @@ class Group:
 
 class Unit:
     def __init__(self, name, group, enforce, harness=None, replace=(), flags=(), tier='quick', functions=(),
-                 loops='none', timeout=None, note='', bounded=None, checks=None, object_bits=None):
+                 loops='none', timeout=None, note='', bounded=None, checks=None, object_bits=None, light=False):
         self.name = name
         self.group = group
         self.enforce = enforce
@@ -60,6 +60,7 @@ class Unit:
         self.bounded = bounded      # None, or a string describing the bound (then never counted as proved)
         self.checks = checks
         self.object_bits = object_bits
+        self.light = light   # no dfcc: harness-style check (requires = exact-extent declarations, ensures = assertions, callee contracts = assume stubs)
 
 
 def _limits():
@@ -173,25 +174,33 @@ class Runner:
         if rc != 0:
             res['detail'] = 'link failed: ' + o[-1500:]
             return res
-        cmd = ['goto-instrument', '--dfcc', u.harness, '--enforce-contract', u.enforce]
-        for r in u.replace:
-            cmd += ['--replace-call-with-contract', r]
-        if u.loops == 'contract':
-            cmd += ['--apply-loop-contracts']
-        for e in ginfo['excludes']:
-            cmd += ['--nondet-static-exclude', e]
-        rc, o, _ = run(cmd + [linked, inst], gd, tmo, log)
-        if rc != 0:
-            res['detail'] = 'goto-instrument failed (rc %s): %s' % (rc, o[-1500:])
-            res['status'] = 'timeout' if rc == -999 else 'error'
-            return res
+        if u.light:
+            inst = linked
+        else:
+            cmd = ['goto-instrument', '--dfcc', u.harness, '--enforce-contract', u.enforce]
+            for r in u.replace:
+                cmd += ['--replace-call-with-contract', r]
+            if u.loops == 'contract':
+                cmd += ['--apply-loop-contracts']
+            for e in ginfo['excludes']:
+                cmd += ['--nondet-static-exclude', e]
+            rc, o, _ = run(cmd + [linked, inst], gd, tmo, log)
+            if rc != 0:
+                res['detail'] = 'goto-instrument failed (rc %s): %s' % (rc, o[-1500:])
+                res['status'] = 'timeout' if rc == -999 else 'error'
+                return res
         checks = u.checks if u.checks is not None else CBMC_CHECKS
         cmd = ['cbmc', '--sat-solver', 'cadical', '--json-ui'] + checks + u.flags + list(extra_flags)
-        if u.object_bits:
-            cmd += ['--object-bits', str(u.object_bits)]
         if trace_property:
             cmd += ['--property', trace_property, '--trace']
-        rc, o, secs = run(cmd + [inst], gd, tmo, log)
+        # dfcc sizes its object-indexed arrays by 2^object-bits, so the smallest sufficient value is used: start at the
+        # unit's setting (default 8) and climb only when CBMC reports "too many addressed objects"
+        ladder = [b for b in (8, 10, 12, 14) if b >= (u.object_bits or 8)]
+        for ob in ladder:
+            rc, o, secs = run(cmd + ['--object-bits', str(ob)] + [inst], gd, tmo, log)
+            if 'too many addressed objects' not in o:
+                break
+        cmd += ['--object-bits', str(ob)]
         res['seconds'] = round(time.time() - t0, 2)
         res['checker_cmd'] = ' '.join(cmd + [inst])
         if rc == -999:
@@ -212,7 +221,7 @@ class Runner:
                 if 'messageText' in m:
                     texts.append(m['messageText'])
         res['messages'] = texts
-        bad = [t for t in texts if re.search(r'ignoring|not enough arguments|no body for function', t)]
+        bad = [t for t in texts if re.search(r'ignoring|not enough arguments|no body for function', t) and not (u.light and re.search(r'no body for function .*(vf_nondet|exit)', t))]
         if bad:
             res['detail'] = 'unexpected CBMC warning(s): ' + ' | '.join(bad[:5])
             return res
@@ -223,6 +232,9 @@ class Runner:
         obl, failed, sentinel = [], [], None
         for r in results:
             name, st, desc = r.get('property', ''), r.get('status', ''), r.get('description', '')
+            fn_ = (r.get('sourceLocation') or {}).get('function', '')
+            if u.light and re.match(r'^hl?_', fn_) and fn_ != u.harness:
+                continue    # obligations of other harnesses linked into the same binary (unreachable from this entry)
             if 'vf_sentinel' in desc:
                 sentinel = st
                 continue
@@ -235,8 +247,8 @@ class Runner:
         res['failed'] = failed
         res['sentinel'] = sentinel
         res['obligation_names'] = [o_[0] for o_ in obl]
-        res['samples'] = [dict(obligation=o_[0], description=o_[2]) for o_ in obl if 'postcondition' in o_[0]][:3]
-        npost = len([1 for o_ in obl if o_[0].startswith(u.enforce + '.postcondition')])
+        res['samples'] = [dict(obligation=o_[0], description=o_[2]) for o_ in obl if 'postcondition' in o_[0] or 'postcondition' in o_[2]][:3]
+        npost = len([1 for o_ in obl if o_[0].startswith(u.enforce + '.postcondition') or (u.light and 'postcondition' in o_[2])])
         if trace_property:
             res['status'] = 'traced'
             return res
@@ -479,7 +491,7 @@ def write_evidence(prop, tier, seed, mod, results, reports, extra, wall, violati
     samples = samples[:8] + extra.get('samples', [])[:6]
     units = []
     for u, r in results:
-        units.append(dict(unit=u.name, status=r['status'], enforce=u.enforce, replaced_callees=u.replace, functions=u.functions,
+        units.append(dict(unit=u.name, status=r['status'], mode=('light: harness-style contract check without dfcc (frame checked for the operands only)' if u.light else 'dfcc'), enforce=u.enforce, replaced_callees=u.replace, functions=u.functions,
                           loops=u.loops, bounded=u.bounded, obligations=r['obligations'], discharged=r['discharged'],
                           sentinel_reachable=(r['sentinel'] == 'FAILURE'), seconds=r['seconds'], solver=r['solver'], note=u.note,
                           failed=[dict(obligation=f['obligation'], description=f['description'], replay=f.get('replay'),
